@@ -47,7 +47,8 @@ impl Location<'_> {
         let pc = u64::from(pc);
         let entry = iter
             .find(|list_entry| match list_entry {
-                Ok(list_entry) => list_entry.range.begin <= pc && list_entry.range.end >= pc,
+                // DWARF ranges are half-open: an entry that ends at pc does not describe pc
+                Ok(list_entry) => list_entry.range.begin <= pc && pc < list_entry.range.end,
                 Err(_) => true,
             })
             .transpose()
